@@ -2,6 +2,7 @@
    regenerated files, so it always builds; it is the oracle of the failing-input search. -/
 import Driver.Common
 import Gvlean.Spec.Uuid
+import Gvlean.Spec.Url
 
 open Go Driver
 
@@ -15,6 +16,7 @@ def stepSpec (line : String) : String :=
     | some b =>
       match fn with
       | "uuid" => showBool (Spec.uuidSpecB b)
+      | "url" => showBool (Spec.urlSpecB b)
       | _ => "bad-op"
   | _ => "bad-op"
 
